@@ -381,7 +381,9 @@ Definition vardef_evs (vs : vschema) (p : npath) (vds : list node) : list ev :=
           | _, _ => []
           end)
       ++ (match dv with
-          | ANode v => filter is_err (val_evs (vs_s vs) v (vp ++ [(3, O)]%nat) None false false)
+          | ANode v => filter is_err (val_evs (vs_s vs) v (vp ++ [(3, O)]%nat)
+                                         (match ot with Some ty0 => as_input (vs_s vs) ty0 | None => None end)
+                                         false false)
           | _ => []
           end)
       ++ filter is_err (dir_evs vs vp 4 (attr_list ds) None)
